@@ -72,7 +72,13 @@ def clusterseq (i : Info) (t : List Ev) : String :=
         let failed2 := r.effects.filterMap fun e => match e with | .dropped id => some id | _ => none
         let model := sortPairs ((running r.entries).map fun (id, c, _) => (id, c))
         let act := sortPairs ((alive (prefixTo t k)).map fun (id, c, _) => (id, c))
+        -- the servers this update created (factory calls that succeeded), as a multiset of (id, configuration):
+        -- what the model's two deliveries started is what the implementation's factory was asked for
+        let window := ((prefixTo t k).reverse.takeWhile fun e => match e with | .push k' => k' != k | _ => true).reverse
+        let ostarts := sortPairs (window.filterMap fun e => match e with | .factory id c _ => some (id, c) | _ => none)
+        let mstarts := sortPairs ((r1.effects ++ r.effects).filterMap fun e => match e with | .start id c _ => some (id, c) | _ => none)
         if model != act then s!"differ@{k}:running {repr act} model {repr model}"
+        else if ostarts != mstarts then s!"differ@{k}:started {repr ostarts} model {repr mstarts}"
         else if cnt != r.entries.length then s!"differ@{k}:count {cnt} model {r.entries.length}"
         else go (k + 1) r.entries r.next (foLeft'.filter fun id => !failed2.contains id) rest
       | _ => "agree"      -- the run was ended before this push
